@@ -161,7 +161,7 @@ func ruleC01R2(c *Ctx) {
 		"the single BufferReceiverSink.Accept call receives the bufferedLogs field", "sendBuffer does not pass the bufferedLogs field to exactly one BufferReceiverSink.Accept call")
 	if okArg {
 		sAcc := siteSumm(c.P, func(s ssa.CallInstruction) bool { return s == acc[0] })
-		sAcc.AllowEmptyGuards = false
+		sAcc.AllowEmptyGuards = true // "nothing buffered" on the very slice that is handed over (path-related guards only)
 		c.mustBeforeReturn("C01.R2", sb, entryOf(sb), sAcc, "sendBuffer always forwards", "outputSink.Accept", sb.Pos(), nil)
 		// truncation of the buffer only after the hand-over
 		st := storesToField(sb, "base/bsupport.logParsingReceiverSink.bufferedLogs")
@@ -357,14 +357,13 @@ func ruleC01R6(c *Ctx) {
 	// OnChunkConsumed is never called directly and is referenced only in RegisterNewConsumer
 	for _, s := range c.callSitesOf(anchorPred(aOnConsumed)) {
 		// calls through function values are resolved by VTA: they must be the ack callback sites
-		nm := anchorName(s.Parent())
-		c.check(nm == aRunAcker, "C01.R6", s.Parent(), "call reaching OnChunkConsumed", s.Pos(),
+		c.check(ownedBy(s.Parent(), aRunAcker), "C01.R6", s.Parent(), "call reaching OnChunkConsumed", s.Pos(),
 			"only the acknowledger's ack callback resolves to OnChunkConsumed", "a call outside runAcknowledger can reach chunkManager.OnChunkConsumed")
 	}
 	refs := c.funcRefs(anchorPred(aOnConsumed))
 	c.floor("C01.R6", "OnChunkConsumed references", len(refs), 1)
 	for _, r := range refs {
-		c.check(anchorName(r.Parent()) == aRegConsumer, "C01.R6", r.Parent(), "reference to OnChunkConsumed", r.Pos(),
+		c.check(ownedBy(r.Parent(), aRegConsumer), "C01.R6", r.Parent(), "reference to OnChunkConsumed", r.Pos(),
 			"OnChunkConsumed is only handed out as ChunkConsumerArgs.OnChunkConsumed", "chunkManager.OnChunkConsumed referenced outside RegisterNewConsumer")
 	}
 }
@@ -438,16 +437,19 @@ func ruleC01R7(c *Ctx) {
 	c.check(usesLast, "C01.R7", fn, "lastInputChunk parameter flows to UnloadOrDropChunk", fn.Pos(), "the chunk-in-hand parameter is unloaded", "the lastInputChunk parameter never reaches UnloadOrDropChunk")
 
 	run := c.P.Fn(aFeederRun)
-	save := c.callsTo(run, anchorPred(aSaveAll))
-	wait := c.callsTo(run, anchorPred("util.(*TrackedWaitGroup).Wait"))
+	calleeIs := func(p FnPred) func(ssa.CallInstruction) bool {
+		return func(s ssa.CallInstruction) bool { f := s.Common().StaticCallee(); return f != nil && p(f) }
+	}
+	save := c.sitesWhereR(run, calleeIs(anchorPred(aSaveAll)))
+	wait := c.sitesWhereR(run, calleeIs(anchorPred("util.(*TrackedWaitGroup).Wait")))
 	var sig []ssa.CallInstruction
-	for _, s := range c.callsTo(run, extPred(aSignal)) {
+	for _, s := range c.sitesWhereR(run, calleeIs(extPred(aSignal))) {
 		if fieldOf(s.Common().Args[0]) == "buffer/hybridbuffer.outputFeeder.stopped" {
 			sig = append(sig, s)
 		}
 	}
 	var closeOut []ssa.Instruction
-	for _, op := range chanOps(run) {
+	for _, op := range c.chanOpsR(run) {
 		if op.Kind == "close" && fieldOf(op.Chan) == "buffer/hybridbuffer.outputFeeder.outputChannel" {
 			closeOut = append(closeOut, op.In)
 		}
